@@ -4,6 +4,7 @@
 mod arcstr;
 mod biarc;
 mod driver;
+mod mem;
 mod mutex;
 mod shm;
 
@@ -42,6 +43,7 @@ fn main() {
         "arcstr" => arcstr::run(&args),
         "biarc" => biarc::run(&args),
         "shm" => shm::run(&args),
+        "mem" => mem::run(&args),
         s => vrt::die(&format!("unknown subcommand {s}")),
     }
 }
